@@ -173,7 +173,9 @@ X0 == [fmt |-> "vhdx", ident |-> TRUE, regi |-> TRUE, rmeta |-> TRUE, rpad |-> 0
        mvds |-> TRUE, item_off |-> 64 * KiB, item_len |-> "8", size |-> "10G", total |-> -1,
        \* the length the region table announces for the metadata region: the inspector does not use it (it always
        \* captures the 64 KiB a table can occupy), so no verdict depends on it - but it is a length field a stream controls
-       meta_len |-> "1048576"]
+       meta_len |-> "1048576",
+       \* the flags word of the virtual-disk-size entry (IsUser / IsVirtualDisk / IsRequired): not consulted either
+       item_flags |-> "0"]
 ItemLen(t) == CASE t = "8" -> 8 [] t = "0" -> 0 [] t = "4" -> 4 [] t = "16" -> 16 [] OTHER -> TableCap   \* clamped to 64 KiB
 XEnd(L) == L.meta_off + L.item_off + 8
 VhdxLayouts ==
@@ -245,7 +247,10 @@ M0 == [fmt |-> "vmdk", sig |-> TRUE, ver |-> 1, desc_sec |-> "1", desc_num |-> "
        \* what stands where the layout has nothing to say (sector padding, the data area): NUL bytes, or text without
        \* a single NUL - the descriptor parser looks for the first NUL, so a stream controls how far it looks -
        \* or "exact": the descriptor text fills its sectors to the last byte and ends in the createType line
-       fill |-> "nul"]
+       fill |-> "nul",
+       \* the grain-directory offset of the sparse header: not consulted by the inspector (only the GD-at-end sentinel,
+       \* which the footer field of the layout stands for, is) - one more 64-bit field the stream controls
+       gd |-> "21"]
 Repl(q, i, x) == [q EXCEPT ![i] = x]
 VmdkLayouts ==
      {[M0 EXCEPT !.fill = "exact", !.desc_num = dn, !.footer = f] :
@@ -351,12 +356,17 @@ Big == 3 * 1024 * KiB
 HostileLayouts ==
      {[M0 EXCEPT !.desc_num = dn, !.total = Big, !.footer = f, !.sectors = "2^55-1"] :
          dn \in {"2047", "2048", "2^55", "2^64-1"}, f \in {NoFooter, [present |-> TRUE, pert |-> "none"]}}
+     \* every 64-bit field of the header at its ends, in combination (a bound must not rest on two fields being sane together)
+\cup {[M0 EXCEPT !.desc_num = dn, !.gd = g, !.total = Big, !.sectors = sc] :
+         dn \in {"0", "1", "2^64-1"}, g \in {"0", "21", "4096", "2^55", "2^64-2"}, sc \in {"0", "2^64-1"}}
 \cup {[M0 EXCEPT !.desc_num = dn, !.total = Big, !.fill = "text", !.footer = f] :
          dn \in {"1", "20", "2048"}, f \in {NoFooter, [present |-> TRUE, pert |-> "none"]}}
 \cup {[X0 EXCEPT !.item_len = il, !.mcount = mc, !.mpad = mp, !.total = Big, !.meta_off = mo] :
          il \in {"8", "65536", "65537", "2^32-1"}, mc \in {-1, 2047, 2048, 65535}, mp \in {0, 2046},
          mo \in {256 * KiB, 1024 * KiB}}
 \cup {[X0 EXCEPT !.rcount = rc, !.rpad = rp, !.total = Big] : rc \in {2047, 2048, 65535}, rp \in {0, 2046}}
+\cup {[X0 EXCEPT !.item_flags = fl, !.item_len = il, !.total = Big, !.meta_off = mo] :
+         fl \in {"1", "6", "7", "2^32-1"}, il \in {"65537", "2^32-1"}, mo \in {256 * KiB, 1024 * KiB}}
 \cup {[X0 EXCEPT !.meta_len = ml, !.item_off = io, !.item_len = il, !.total = Big] :
          ml \in {"0", "8", "65536", "2^32-1"}, io \in {64 * KiB, 64 * KiB + 8, 128 * KiB}, il \in {"8", "2^32-1"}}
 \cup {[fmt |-> "raw", kind |-> k, total |-> Big] : k \in {"text", "random", "zero"}}
